@@ -1169,6 +1169,61 @@ def _ldap(ctx):
            construct='option attribute template')
 
 
+def _option_reader(ctx):
+    """C15.5: the reader takes every option group the writer can emit: the
+    writer numbers the groups in hexadecimal (``<prefix>-<idx:x>``), the
+    reader selects the groups of a kind by the prefix alone.  A second
+    condition on the rest of the key (digits only, a fixed width) drops the
+    groups whose index it does not spell - the eleventh sub-object of an
+    entry has index ``a``."""
+    mod = ctx.index.module(LDAP)
+    func = mod.functions.get('_grouped_to_list_of_dict')
+    ctx.require(func is not None, '_grouped_to_list_of_dict', rule='C15.5')
+    params = func.params()
+    grouped, prefix = params[0], params[1]
+    conds = []
+    seen = 0
+    for sub in K.walk_no_nested(func.node):
+        if isinstance(sub, (ast.DictComp, ast.ListComp, ast.SetComp,
+                            ast.GeneratorExp)):
+            gen = sub.generators[0]
+            if grouped in N.mentions(gen.iter):
+                seen += 1
+                for cond in gen.ifs:
+                    parts = cond.values if isinstance(
+                        cond, ast.BoolOp) and isinstance(
+                            cond.op, ast.And) else [cond]
+                    conds.extend(parts)
+        if isinstance(sub, ast.For) and grouped in N.mentions(sub.iter):
+            seen += 1
+            keys = N.for_target_names(sub) if hasattr(
+                N, 'for_target_names') else set(
+                    n.id for n in ast.walk(sub.target)
+                    if isinstance(n, ast.Name))
+            for inner in ast.walk(sub):
+                if isinstance(inner, (ast.If, ast.IfExp)) and \
+                        keys & N.mentions(inner.test):
+                    parts = inner.test.values if isinstance(
+                        inner.test, ast.BoolOp) else [inner.test]
+                    conds.extend(parts)
+    ctx.require(seen >= 1, 'selection over the grouped options',
+                rule='C15.5', func=func)
+
+    def by_prefix(cond):
+        if isinstance(cond, ast.UnaryOp) and isinstance(cond.op, ast.Not):
+            cond = cond.operand
+        return isinstance(cond, ast.Call) and K.is_meth(
+            cond, 'startswith') and len(cond.args) == 1 and \
+            N.txt(cond.args[0]) == prefix
+    extra = [N.txt(c) for c in conds if not by_prefix(c)]
+    ctx.ob('C15.5', func, None,
+           any(by_prefix(c) for c in conds) and not extra,
+           'option groups are selected by their prefix alone (the index is '
+           'written in hexadecimal)%s' % (
+               '' if not extra else ' - also required: %s' % extra),
+           construct='option groups selected by prefix')
+
+
 def _list_values(ctx):
     """C15.5: a list is written element for element: the values stored for a
     list-typed field are one per element of the object's list that is not
@@ -1235,6 +1290,7 @@ def _update_markers(ctx):
 def check(ctx):
     _update_markers(ctx)
     _list_values(ctx)
+    _option_reader(ctx)
     _rulefile(ctx)
     _unique(ctx)
     _events(ctx, EV_APP, 'AppTraceEvent', 'AppTraceEventTypes')
